@@ -674,8 +674,10 @@ class EventManager(MpfController):
             self.debug_log("^^^^ Processing queue event '%s'. Callback: %s,"
                            " Args: %s", event, callback, kwargs)
 
-        # all handlers may have been removed in the meantime
+        # all handlers may have been removed in the meantime. the event is complete in that case
         if event not in self.registered_handlers:
+            if callback:
+                callback(**kwargs)
             return
 
         # Now let's call the handlers one-by-one, including any kwargs
